@@ -148,6 +148,14 @@ Print Assumptions C16_deferred_cache_refuted.
 Theorem C16_deferred_cache_fixed : P_b_blocks b_deferred (model_trace_blocks cfg_fixed b_deferred) = true.
 Proof. exact deferred_fixed. Qed.
 
+(** a logged-out / frozen governance admin (or an account that never was one) does not vote: its ballot is refused and
+    nothing changes; on implementation traces this is clause 6 of the predicate (the Vote receipt must be FAILED) *)
+Theorem C16_unavailable_admin_ballot_refused : forall f s r k a,
+  d_cache_failed_events f = false ->
+  r_ok (step f s (ORoleVote r k a)) = false /\ r_state (step f s (ORoleVote r k a)) = s.
+Proof. exact rolevote_refused. Qed.
+Print Assumptions C16_unavailable_admin_ballot_refused.
+
 (** a pending logout is final unless it is rejected or withdrawn: clause 5 of the trace predicate ([logout_step]).
     On the code as it is it FAILS: UnPauseChainService (approved activation / update of the appchain) restores the
     paused proposals of every registered service, also of one that is not paused - the freeze proposal that the
